@@ -1,4 +1,3 @@
-use std::ops::Not;
 
 use strum_macros::EnumIter;
 
@@ -168,11 +167,26 @@ where
             Self::Print(print) => print.perform(state),
             Self::Println(println) => println.perform(state),
 
-            Self::Not => bool_stack.pop().map(Not::not).push_onto(state),
-            Self::And => bool_stack.pop2().map(|(x, y)| x && y).push_onto(state),
-            Self::Or => bool_stack.pop2().map(|(x, y)| x || y).push_onto(state),
-            Self::Xor => bool_stack.pop2().map(|(x, y)| x != y).push_onto(state),
-            Self::Implies => bool_stack.pop2().map(|(x, y)| !x || y).push_onto(state),
+            // Look at the arguments and replace them with the result in one step, so that
+            // the state is left untouched if the result doesn't fit (which can happen if the
+            // stack's maximum was lowered below its current size).
+            Self::Not => bool_stack.top().map(|&x| !x).replace_on(1, state),
+            Self::And => bool_stack
+                .top2()
+                .map(|(&x, &y)| x && y)
+                .replace_on(2, state),
+            Self::Or => bool_stack
+                .top2()
+                .map(|(&x, &y)| x || y)
+                .replace_on(2, state),
+            Self::Xor => bool_stack
+                .top2()
+                .map(|(&x, &y)| x != y)
+                .replace_on(2, state),
+            Self::Implies => bool_stack
+                .top2()
+                .map(|(&x, &y)| !x || y)
+                .replace_on(2, state),
             Self::FromInt => {
                 let mut state = state.not_full::<bool>().map_err_into()?;
                 state
